@@ -101,7 +101,11 @@ impl OutcomeTestGenerator for Outcome {
                         output.push_str(" (no-eol)\n")
                     }
                     generated.push_str(&output);
-                    generated.push_str(&formatln!("[{}]", *actual));
+                    // an exit code of zero is not written (it would be removed
+                    // again by the next update of the then passing test)
+                    if *actual != 0 {
+                        generated.push_str(&formatln!("[{}]", *actual));
+                    }
                     Ok(generated)
                 }
                 TestCaseError::InternalError(err) => {
